@@ -94,6 +94,13 @@ class C20(Prop):
                     continue
                 if g == 0 and r["exit_ms"] > sig + SLACK:
                     res.append(("graceful:late-exit-without-option", "exit %d ms after the signal although no grace period is configured" % (r["exit_ms"] - sig), rp))
+                if sc.get("phase") == "health-wait":
+                    # nothing is in flight before the first passing check: the agent may stop at once, and must be gone when the period ends
+                    if not (sig <= r["exit_ms"] <= sig + g + SLACK):
+                        res.append(("graceful:signal-ignored-while-waiting-for-health", "signal sent while the agent was waiting for the backend to become healthy: exit %d ms after the signal (grace %d ms)" % (r["exit_ms"] - sig, g), rp))
+                    if any(t > sig + 120 for t in r["list_starts_ms"]):
+                        res.append(("graceful:polled-after-signal", "a pending-list call started %d ms after the signal" % (max(r["list_starts_ms"]) - sig), rp))
+                    continue
                 if g > 0 and not (sig + g - 150 <= r["exit_ms"] <= sig + g + SLACK):
                     res.append(("graceful:exit-time", "exit %d ms after the signal, grace period %d ms" % (r["exit_ms"] - sig, g), rp))
                 # the signal is sent 100-250 ms into a pending-list call: that call may finish, no other may start
